@@ -143,6 +143,10 @@ bool cli_key_path(const std::string &s, bytes &key_out);
 
 // ---- CLI in-process (main() renamed) ----
 int cli_main(const std::vector<std::string> &argv);
+// the body of main() under the scheduler of this build (T = 4 inside); returns main's return value
+int cli_run(const std::vector<std::string> &argv, const PipeCfg &pc, size_t nblocks, SchedOut *so);
+void set_sizes(int chunk, int refill_units); // explicit values for the two hooked constants
+void set_fake_time(long t);                  // time() seen by wencry (0 = the real clock)
 
 void quiet_stdout(); // silence wencry's progress output
 } // namespace wapi
